@@ -13,8 +13,8 @@ import (
 
 type digester struct {
 	sb strings.Builder
-	// normEmpty: containers that declare nothing (info(), import(), type(), "()" bodies) are left
-	// out of the digest.
+	// normEmpty: containers that declare nothing (info(), import(), type(), @server(), @doc(), "()"
+	// request / response bodies) are left out of the digest.
 	normEmpty bool
 }
 
@@ -77,7 +77,7 @@ func (d *digester) stmt(s ast.Stmt) {
 		d.w(")\n")
 	case *ast.ServiceStmt:
 		d.w("(service")
-		if v.AtServerStmt != nil {
+		if v.AtServerStmt != nil && !(d.normEmpty && len(v.AtServerStmt.Values) == 0) {
 			d.w(" (@server %s", tn(v.AtServerStmt.AtServer))
 			for _, e := range v.AtServerStmt.Values {
 				d.kv(e)
@@ -171,11 +171,13 @@ func (d *digester) item(r *ast.ServiceItemStmt) {
 	case *ast.AtDocLiteralStmt:
 		d.w(" (@doc %s %s)", tn(v.AtDoc), tn(v.Value))
 	case *ast.AtDocGroupStmt:
-		d.w(" (@doc-group %s", tn(v.AtDoc))
-		for _, e := range v.Values {
-			d.kv(e)
+		if !(d.normEmpty && len(v.Values) == 0) {
+			d.w(" (@doc-group %s", tn(v.AtDoc))
+			for _, e := range v.Values {
+				d.kv(e)
+			}
+			d.w(")")
 		}
-		d.w(")")
 	}
 	if r.AtHandler != nil {
 		d.w(" (@handler %s %s)", tn(r.AtHandler.AtHandler), tn(r.AtHandler.Name))
